@@ -209,6 +209,21 @@ def run(pid: str, tier: str, seed: int, selftest=False, replay=None) -> int:
         from gen_small import render, tlc_programs
         rg, progs = tlc_programs(pid, 3, 3 if tier == "quick" else 4, 2)
         rep.add_tlc(rg)
+        # deeper structures without calls: every nesting of <= 5 invocations / loops / conditionals over two value choices (21 058 programs);
+        # the quick tier takes a seeded uniform sample of them, the thorough tier all
+        rg2, deep = tlc_programs(pid, 2, 5, 2, withcalls=False)
+        rep.add_tlc(rg2)
+        deep = [t for t in deep if sum(1 for x in t if x not in (")", "E")) > 3]
+        if tier == "quick":
+            import itertools
+            import random as _r
+            # all of the family the statement is about - a loop whose body is a conditional, every choice of 0-2 invocations before the
+            # loop, in the then-arm and in the else-arm and 0-1 after the loop (1 029 programs) - plus a seeded uniform sample of the rest
+            leafseqs = [()] + [(a,) for a in ("I1", "I2")] + [(a, b) for a in ("I1", "I2") for b in ("I1", "I2")]
+            family = {pre + ("F", "X") + th + ("E",) + el + (")", ")") + post
+                      for pre, th, el in itertools.product(leafseqs, repeat=3) for post in leafseqs[:3]}
+            deep = sorted(family) + _r.Random(seed * 9176 + 5).sample([t for t in deep if t not in family], 400)
+        progs = list(progs) + deep
         n_small = 0
         for toks in progs:
             if pid == "C06" and not one_setup_per_nest(toks):
